@@ -20,6 +20,7 @@ from pyvc.instrument import instrument
 from pyvc.util import real_module
 
 PROP = 'C19'
+TREE = os.environ.get('ATHLIB_TREE', '/repo')
 
 
 def _utils():
@@ -265,8 +266,8 @@ def _work(job):
 
 # ---------------------------------------------------------------------------- replay (history on the real code, fresh interpreter)
 HIST = r'''
-import sys, json
-sys.path.insert(0, '/repo')
+import sys, json, os
+sys.path.insert(0, os.environ.get('ATHLIB_TREE', '/repo'))
 import jsonschema
 from jsonschema.exceptions import SchemaError, ValidationError
 from athlib.utils import schema_valid, valid_against_schema
@@ -290,7 +291,7 @@ print(json.dumps(out))
 
 
 def run_history(hist):
-    r = subprocess.run([sys.executable, '-c', HIST, json.dumps(hist)], capture_output=True, text=True, cwd='/repo', timeout=300)
+    r = subprocess.run([sys.executable, '-c', HIST, json.dumps(hist)], capture_output=True, text=True, cwd=TREE, timeout=300)
     if r.returncode != 0:
         raise RuntimeError(r.stderr[-2000:])
     return json.loads(r.stdout.strip().splitlines()[-1])
@@ -329,8 +330,8 @@ def replay(rep):
 
 # ---------------------------------------------------------------------------- ground: bundled files, histories
 def bundled():
-    sj = sorted(os.listdir('/repo/sample-jsons'))
-    schemas = sorted(f for f in os.listdir('/repo/json') if f.endswith('.json'))
+    sj = sorted(os.listdir(TREE + '/sample-jsons'))
+    schemas = sorted(f for f in os.listdir(TREE + '/json') if f.endswith('.json'))
     pairs = []
     for s in sj:
         if not s.endswith('.json'):
@@ -339,7 +340,7 @@ def bundled():
         if base == 'combined':
             base = 'combined_performance'
         sch = 'json/%s.json' % base
-        if os.path.exists('/repo/' + sch):
+        if os.path.exists(TREE + '/' + sch):
             pairs.append(('sample-jsons/' + s, sch, 'invalid' not in s))
     return schemas, pairs
 
